@@ -126,6 +126,13 @@ fn nested_check(case: &Value, stats: &mut Stats) -> CheckResult {
             stats.label("chain_pop");
             continue;
         }
+        if byte >= 236 && !chain.last().is_check() {
+            // a null move that stays in the chain (documented for push_unchecked: allowed when the king is not in check)
+            unsafe { chain.push_unchecked(owlchess::Move::NULL) };
+            snaps.push(snapshot(chain.last()));
+            stats.label("chain_null_move_kept");
+            continue;
+        }
         let ms = semilegal::gen_all(chain.last());
         if ms.is_empty() {
             continue;
@@ -208,7 +215,7 @@ pub fn property() -> Property {
                 driver: Driver::Generated { gen: gen_walk_case, genome_len: 320, quick: 600_000, thorough: 4_800_000 },
                 check: nested_check,
                 configs: Configs::Both,
-                required: &["illegal_rollback", "null_move", "special_move", "depth>=6", "chain_pop", "chain_refused_push"],
+                required: &["illegal_rollback", "null_move", "special_move", "depth>=6", "chain_pop", "chain_refused_push", "chain_null_move_kept"],
                 regressions: &[],
                 exhaustive: false,
             },
